@@ -755,6 +755,10 @@ def parse_template(text):
         if mm:
             c = Clause(mm.group(1), mm.group(2), mm.group(3))
             cur.clauses.append(c); last = ("clause", c); i += 1; continue
+        mm = re.match(r"^loop\s+(\d+)\s+entry\s*:\s?(.*)$", body)
+        if mm:
+            c = Clause("loopentry", "", mm.group(2), loop=int(mm.group(1)))
+            cur.clauses.append(c); last = ("clause", c); i += 1; continue
         mm = re.match(r"^loop\s+(\d+)\s+(invariant|invariant_except_break|ensures|decreases)\s*([\w.\-]*)\s*:\s?(.*)$", body)
         if mm:
             c = Clause(mm.group(2), mm.group(3), mm.group(4), loop=int(mm.group(1)))
@@ -1123,7 +1127,8 @@ def _build_fn(sf: SourceFile, item: Item, impl, ex: Extract, props, rep, unit, a
         kw = next(i for i, t in enumerate(body_toks) if getattr(t, "mark", None) == ("kw", ordn))
         br = next(i for i, t in enumerate(body_toks) if getattr(t, "mark", None) == ("brace", ordn))
         cl = loop_clauses.get(ordn, [])
-        spec = _render_loop_clauses(cl)
+        spec = _render_loop_clauses([c for c in cl if c.kind != "loopentry"])
+        lentry = "\n".join(c.text for c in cl if c.kind == "loopentry")
         if ordn in ex.desugar_for:
             if body_toks[kw].text != "for":
                 raise AnchorLost(f"{qual}: loop {ordn} is not a `for` (R10)")
@@ -1141,12 +1146,14 @@ def _build_fn(sf: SourceFile, item: Item, impl, ex: Extract, props, rep, unit, a
             pat = text_of(body_toks[kw + 1:in_idx]).strip()
             expr = text_of(body_toks[in_idx + 1:br]).strip()
             it = f"verif_it{ordn}"
-            hdr = f"let mut {it} = IntoIterator::into_iter({expr});\nloop\n{spec}"
-            first = f"{{ let {pat} = match {it}.next() {{ Some(verif_x) => verif_x, None => break }};"
+            hdr = f"let mut {it} = verif_into_iter({expr});\nloop\n{spec}"
+            first = f"{{ let {pat} = match {it}.next() {{ Some(verif_x) => verif_x, None => break }};\n{lentry}\n"
             body_toks[br] = T("raw", first)
             body_toks[kw:br] = [T("raw", hdr)]
             rep.append(("R10", f"`for {pat} in {expr}` desugared to loop/match (loop {ordn})"))
         else:
+            if lentry:
+                body_toks[br + 1:br + 1] = [T("raw", "\n" + lentry + "\n")]
             if spec:
                 body_toks[br:br] = [T("raw", "\n" + spec)]
 
